@@ -467,6 +467,25 @@ theorem reference_hybrid_classes_are_chain_classes (ps : List Proto) (hn : ps.No
       Linked (shareGroups ps) a b :=
   reference_hybrid_classes ps hn a b
 
+/-- The model's hybrid pass against the executable reference's `hclasses` (any record): two
+    protoclusters of one reference class end up in one hybrid group of the model, and every hybrid group
+    of the model contains a set `m` of ≥ 2 protoclusters any two of which lie in one reference class
+    (the rest of the group: `hybrid_groups_are_sharing_classes`).  The reference computes its classes on
+    the input order, the model on its sorted order; the classes are the same (`reference_hybrid_classes_sorted`). -/
+theorem hybrid_groups_match_reference_classes (ps : List Proto) (wrap : Option Int) (hg : List (List Proto))
+    (un : List Proto) (hn : ps.Nodup) (h : findHybrids (sortProtos ps) wrap = .ok (hg, un)) :
+    (∀ c, c ∈ (classesOf shareGene ps).filter (fun c => c.length ≥ 2) → ∀ a b, a ∈ c → b ∈ c →
+      ∃ g, g ∈ hg ∧ a ∈ g ∧ b ∈ g) ∧
+    (∀ g, g ∈ hg → ∃ m : List Proto, (∀ x, x ∈ m → x ∈ g) ∧ 2 ≤ m.length ∧
+      ∀ a b, a ∈ m → b ∈ m → ∃ c, c ∈ (classesOf shareGene ps).filter (fun c => c.length ≥ 2) ∧ a ∈ c ∧ b ∈ c) := by
+  obtain ⟨h1, h2⟩ := hybrid_groups_are_sharing_classes (sortProtos ps) wrap hg un (nodup_sortProtos hn) h
+  refine ⟨?_, ?_⟩
+  · intro c hc a b ha hb
+    exact h1 a b ((reference_hybrid_classes_sorted ps hn a b).1 ⟨c, hc, ha, hb⟩)
+  · intro g hg'
+    obtain ⟨m, _, hm1, hm2, hm3, _⟩ := h2 g hg'
+    exact ⟨m, hm1, hm2, fun a b ha hb => (reference_hybrid_classes_sorted ps hn a b).2 (hm3 a b ha hb)⟩
+
 /-- The interleaved / neighbouring groups of the executable reference (`igroups` / `ngroups` in
     `Spec.reference`: unit classes of "spans overlap" with at least two units, then the union of the
     members) are exactly the `Linked` chain classes of `overlapGroups`, the notion the stage theorems and
